@@ -55,12 +55,22 @@ type Block struct {
 	Lens []int
 }
 
+// Selector is a byte that selects the decoding path of (part of) the frame: protocol code, command
+// type, flag byte, serialization id, TLV head ... Lens are the indexes (in Frame.Fields) of the length
+// fields whose boundary values are crossed with the selector's values; nil = all fields.
+type Selector struct {
+	Name string
+	Off  int
+	Lens []int
+}
+
 // Frame is a valid frame with its annotated length fields and blocks.
 type Frame struct {
-	Name   string
-	Bytes  []byte
-	Fields []Field
-	Blocks []Block
+	Name      string
+	Bytes     []byte
+	Fields    []Field
+	Blocks    []Block
+	Selectors []Selector
 }
 
 func getBE(b []byte, off, w int) uint64 {
@@ -211,6 +221,89 @@ func Mutations(target string, f Frame, yield func(Case) bool) bool {
 		b = append(b, f.Bytes[:n]...)
 		if !mk("trailing", fmt.Sprintf("frame + first %d bytes of the next", k), b) {
 			return false
+		}
+	}
+	return true
+}
+
+// SelectorValues is the value set of a selector byte whose true value is tv in the cross with the
+// length fields: the small values 0..7, every single bit, every single cleared bit, 0xFF, every single-bit
+// flip of the true value (each flag of a flag byte toggled on its own) and true+-1; the true value
+// itself is included (it is crossed with the corrupted length as well as the others).
+func SelectorValues(tv byte) []byte {
+	var out []byte
+	seen := map[byte]bool{}
+	add := func(v byte) {
+		if !seen[v] {
+			seen[v] = true
+			out = append(out, v)
+		}
+	}
+	for v := 0; v < 8; v++ {
+		add(byte(v))
+	}
+	for k := uint(0); k < 8; k++ {
+		add(1 << k)
+		add(0xff ^ (1 << k))
+		add(tv ^ (1 << k))
+	}
+	add(0xff)
+	add(tv - 1)
+	add(tv + 1)
+	return out
+}
+
+// SelectorMutations yields the cross of the frame's selector bytes with its length fields:
+//
+//	selector           every selector byte set to every one of the 256 values (nothing else changed)
+//	selector-x-length  every selector byte over SelectorValues (other than its true value) x every length
+//	                   field of the selector's Lens over LengthValues
+//
+// (true selector value x corrupted length is the class length-field of Mutations.)
+func SelectorMutations(target string, f Frame, yield func(Case) bool) bool {
+	mk := func(class, desc string, b []byte) bool {
+		return yield(Case{Target: target, Frame: f.Name, Class: class, Desc: desc, Hex: hex.EncodeToString(b)})
+	}
+	for _, sel := range f.Selectors {
+		tv := f.Bytes[sel.Off]
+		for v := 0; v < 256; v++ {
+			if byte(v) == tv {
+				continue
+			}
+			b := append([]byte(nil), f.Bytes...)
+			b[sel.Off] = byte(v)
+			if !mk("selector", fmt.Sprintf("%s@%d: %#02x -> %#02x", sel.Name, sel.Off, tv, v), b) {
+				return false
+			}
+		}
+	}
+	for _, sel := range f.Selectors {
+		tv := f.Bytes[sel.Off]
+		lens := sel.Lens
+		if lens == nil {
+			for i := range f.Fields {
+				lens = append(lens, i)
+			}
+		}
+		for _, sv := range SelectorValues(tv) {
+			if sv == tv {
+				continue
+			}
+			for _, li := range lens {
+				fd := f.Fields[li]
+				if sel.Off >= fd.Off && sel.Off < fd.Off+fd.Width {
+					continue
+				}
+				ltv := getBE(f.Bytes, fd.Off, fd.Width)
+				for _, lv := range LengthValues(ltv, fd.Width) {
+					b := append([]byte(nil), f.Bytes...)
+					b[sel.Off] = sv
+					putBE(b, fd.Off, fd.Width, lv)
+					if !mk("selector-x-length", fmt.Sprintf("%s@%d: %#02x -> %#02x and %s@%d/%d: %d -> %d", sel.Name, sel.Off, tv, sv, fd.Name, fd.Off, fd.Width, ltv, lv), b) {
+						return false
+					}
+				}
+			}
 		}
 	}
 	return true
